@@ -141,7 +141,7 @@ def _frames(s: Stream, p, nsteps: int, rev: bool, stop_extra: bool) -> dict:
             cuts = sorted(s.sample(range(1, n), nfiles - 1))
             split = [b - a for a, b in zip([0, *cuts], [*cuts, n])]
         fr["split"] = split
-    fr["time_units"] = s.wpick([("epoch", 3), ("y2000", 1), ("hours", 1)])
+    fr["time_units"] = s.wpick([("epoch", 6), ("y2000", 2), ("hours", 2), ("days", 1), ("days1948", 1)])
     if s.chance(p["p_packed"]):
         fr["storage"] = "i2"
         # each component packed to its own range, as ROMS post-processing does
@@ -415,8 +415,9 @@ def gen_scenario(seed: int, p: dict | None = None) -> dict:
     if s.chance(p["p_stop_extra"]) and dt > 1:
         T["stop_extra"] = s.randint(1, dt - 1)
     if s.chance(p["p_reference"]):
-        T["reference"] = str(np.datetime64("1970-01-01T00:00:00", "s")
-                             + np.timedelta64(s.randint(0, 20000), "D")
+        # up to a century before the run (more than 2**31 seconds) or some years after it
+        T["reference"] = str(np.datetime64("1900-01-01T00:00:00", "s")
+                             + np.timedelta64(s.randint(0, 45600), "D")
                              + np.timedelta64(s.randint(0, 86399), "s"))
     sc["time"] = T
     # --- grid
